@@ -43,6 +43,16 @@ def run(ctx):
         kids = [spec.F(f"K{j}x{g.rng.randrange(10**6)}") for j in range(6)]
         cases.append(dict(root=spec.F("Root", [spec.R(1, 1, kids[:3]), spec.R(0, 1, kids[3:5]), spec.R(2, 3, [kids[5], spec.F("Za"), spec.F("Zb")])]),
                           ctcs=[("c", spec.OP("EXCLUDES", spec.T(kids[0]["name"]), spec.T("Za")))]))
+    # constraints whose clauses repeat a literal (anything built on a set of strings shows the hash seed);
+    # a group declared before single children (anything that sorts the model's own lists shows in the dump)
+    T, OP = spec.T, spec.OP
+    names = ["Alpha", "Beta", "Gamma", "Delta", "Epsilon", "Zeta"]
+    wide = spec.F("Root", [spec.R(1, 2, [spec.F("Alpha"), spec.F("Beta")]), spec.R(0, 1, [spec.F("Gamma")]),
+                           spec.R(2, 3, [spec.F("Delta"), spec.F("Epsilon"), spec.F("Zeta")]), spec.R(1, 1, [spec.F("Eta")])])
+    cases.append(dict(root=wide, ctcs=[
+        ("c0", OP("OR", OP("OR", OP("OR", T("Alpha"), T("Beta")), OP("OR", T("Gamma"), T("Delta"))), OP("AND", T("Alpha"), T("Epsilon")))),
+        ("c1", OP("IMPLIES", OP("AND", T("Zeta"), T("Eta")), OP("OR", T("Zeta"), OP("OR", T("Beta"), T("Zeta"))))),
+        ("c2", OP("OR", OP("AND", T("Beta"), T("Gamma")), OP("AND", T("Beta"), OP("NOT", T("Delta")))))]))
     # order-permuted twins: equal-comparing models whose text differs (children in another order)
     import copy
     for m in list(cases[:6]) + list(cases[-4:]):
